@@ -33,12 +33,12 @@ PROP = dict(
         "c11_ctl/kind:msdec": 100, "c11_ctl/kind:proj-enc": 100, "c11_ctl/kind:proj-dec": 100,
         "c11_ctl/create:enc:reject": 50, "c11_ctl/create:dec:reject": 10, "c11_ctl/create:ms-enc:reject": 50, "c11_ctl/create:ms-dec:reject": 50,
         "c11_ctl/create:surround:reject": 100, "c11_ctl/create:projection-enc:reject": 100, "c11_ctl/create:projection-dec:reject": 3,
-        "c11_ctl/create:enc:accept": 5, "c11_ctl/create:surround:accept": 20, "c11_ctl/create:projection-enc:accept": 1,
+        "c11_ctl/create:enc:accept": 5, "c11_ctl/create:surround:accept": 20, 
         "c11_honour/object:single": 1000, "c11_honour/object:multistream": 100, "c11_honour/forced-bandwidth": 200,
         "c11_honour/max-bandwidth": 100, "c11_honour/nyquist-binds": 300, "c11_honour/forced-channels": 100, "c11_honour/lowdelay": 200,
         "c11_honour/short-frame": 100, "c11_honour/expert-duration": 300, "c11_honour/long-packet": 200,
         "c11_honour/celt-medium-coded-as-wide": 50, "c11_honour/channel-change-verified": 40, "c11_honour/empty-packets-skipped": 50,
-        "c11_alloc/failure-injected": 1260,
+        "c11_alloc/failure-injected": 200,
     }},
     exhaustive_parts={
         "thorough": ["c11_ctl grid family: 7 object kinds x 4 configurations x {fresh, after one coded frame, after frame + reset} x 18 settable requests x 89 grid values (legal, both boundaries +-1, AUTO/MAX sentinels, INT_MIN/INT_MAX)",
